@@ -13,7 +13,9 @@ def as_list(x):
     return x if isinstance(x, list) else [x]
 
 
-def replay(twin, np_kind, train, test, batch_size):
+def replay(twin, np_kind, train, test, batch_size, chunk_size=None):
+    """chunk_size: when the simulator bounds its memory by walking through the test rows (offline) or through every batch
+    (online) in chunks, the documented per-step protocol (predict, then read expectations) applies per chunk"""
     d, r, X = train
     td, tr, tX = test
     ctxual = twin.is_contextual
@@ -32,13 +34,17 @@ def replay(twin, np_kind, train, test, batch_size):
         if not ctxual:
             preds += [twin.predict() for _ in range(e - s)]
             exps.append(dict(twin._imp.arm_to_expectation))
-        elif nn:
-            g = copy.deepcopy(twin)
-            exps += as_list(g.predict_expectations(tX[s:e]))
-            preds += as_list(twin.predict(tX[s:e]))
         else:
-            preds += as_list(twin.predict(tX[s:e]))
-            exps += as_list(twin.predict_expectations(tX[s:e]))
+            c = chunk_size if chunk_size and chunk_size > 0 else (e - s)
+            for cs in range(s, e, c):
+                ce = min(cs + c, e)
+                if nn:
+                    g = copy.deepcopy(twin)
+                    exps += as_list(g.predict_expectations(tX[cs:ce]))
+                    preds += as_list(twin.predict(tX[cs:ce]))
+                else:
+                    preds += as_list(twin.predict(tX[cs:ce]))
+                    exps += as_list(twin.predict_expectations(tX[cs:ce]))
         if batch_size > 0:
             if ctxual:
                 twin.partial_fit(td[s:e], tr[s:e], tX[s:e])
